@@ -60,9 +60,9 @@ def showStray (st : List (Nat × Val)) : String :=
   String.join (st.map fun (k, v) => s!"!{k}/{v}")
 
 def showRes : Res → String
-  | .sent => "S"
+  | .sent _ _ => "S"
   | .closed => "C"
-  | .recv v ok => s!"R{v}/{b01 ok}"
+  | .recv _ v ok => s!"R{v}/{b01 ok}"
   | .sel i v ok st => s!"L{i}/{v}/{b01 ok}{showStray st}"
   | .dflt st => s!"D{showStray st}"
   | .panic => "P"
